@@ -63,7 +63,13 @@ class TrOA(TrProg):
 
     # ------------------------------------------------------------------ expressions
     def truthy(self, text, ty):
+        if ty == 'optdata':
+            # a queue item is `None | Mapping`: `bool(None)` is False, `bool(mapping)` is "non-empty" --
+            # NOT the same as `item is not None` (an empty mapping is a legal item)
+            return f'(match {text} with | none => false | some d_ => {self.P}.dataTruthy d_)'
         if ty in OPT:
+            # the other optional locals hold objects that are always true (a Task, an exception, a result
+            # that is never tested)
             return f'({text}).isSome'
         if ty == 'taskset':
             self.reads_state = True
@@ -548,6 +554,7 @@ structure CtrlPrims (σ ε δ θ κ : Type) where
   runWrapper : Option δ → M σ ε Unit Unit     -- `await self._output_coro_wrapper(data)`
   spawn : Option δ → M σ ε Unit Unit          -- `tasks.add(asyncio.create_task(self._output_coro_wrapper(data)))`
   tasksNonEmpty : σ → Bool                    -- `bool(tasks)` (a WeakSet of the created tasks)
+  dataTruthy : δ → Bool                       -- `bool(data)` of event data (a mapping): non-empty
   gatherTasks : M σ ε Unit Unit               -- `await asyncio.gather(*tasks, return_exceptions=True)`
 
 /-- the leaves of `_output_coro` / `_output_coro_wrapper`; ν what the user's coroutine returns -/
